@@ -207,7 +207,7 @@ macro_rules
     try (repeat' split at $h:ident)
     all_goals (first | (simp only [reduceCtorEq] at $h:ident; done) | contradiction | skip)
     all_goals (simp only [Option.some.injEq, setPc_eq_upd] at $h:ident; subst $h:ident)
-    all_goals (try simp only [Bool.or_eq_true, not_or, nisSome, isSomeF, isNoneT] at *)))
+    all_goals (try simp only [Bool.or_eq_true, Bool.and_eq_true, not_or, not_and, nisSome, isSomeF, isNoneT] at *)))
 
 /-! ### generic preservation lemmas -/
 
